@@ -3,6 +3,8 @@ package jph
 import (
 	"fmt"
 	"strings"
+
+	"github.com/AsaiYusuke/jsonpath"
 )
 
 // C01 — retrieval returns exactly what the path selects: differential against Spec.
@@ -96,6 +98,12 @@ func queryShape(q *Query) string {
 var c01EarlierFails []string
 
 func (c01) Exec(seed int64, i int, tier string) Record {
+	switch i % 16 {
+	case 6:
+		return c01LitLeftCase(CaseRng(seed, "C01", i))
+	case 14:
+		return c01ReentCase(CaseRng(seed, "C01", i))
+	}
 	r := CaseRng(seed, "C01", i)
 	o := DefaultOpts()
 	switch i % 8 {
@@ -153,11 +161,32 @@ func (c01) Exec(seed int64, i int, tier string) Record {
 	if dollarless && len(c01EarlierFails) > 0 {
 		info["failed_parses_earlier_in_this_process"] = append([]string{}, c01EarlierFails...)
 	}
-	f, out, tree := ParseTree(text, &cfg)
+	return c01Check(text, p, p.Sexp(), doc, jn, &cfg, extraTags, info, nil)
+}
+
+// c01Check: parse (with the tree hook), call, and compare with the specification and the model.
+// psexp is the path as the model is asked about it; afterParse (optional) sees the parsed function
+// before it is called and may return a finding after the call.
+func c01Check(text string, p *Path, psexp string, doc interface{}, jn bool, cfgp *jsonpath.Config, extraTags []string, info map[string]interface{},
+	afterParse func(f Parsed) func() string) Record {
+	f, out, tree := ParseTree(text, cfgp)
+	var afterCall func() string
 	if f != nil {
+		if afterParse != nil {
+			afterCall = afterParse(f)
+		}
 		out = SafeCall(f, doc)
 	}
 	rec := Record{Text: text, Doc: JSONText(doc), Tags: append(stepTags(p), extraTags...)}
+	if afterCall != nil {
+		if msg := afterCall(); msg != "" {
+			rec.Viol, rec.Class = msg, "abnormal"
+			if len(info) > 0 {
+				rec.Info = info
+			}
+			return rec
+		}
+	}
 	if len(info) > 0 {
 		rec.Info = info
 	}
@@ -185,10 +214,10 @@ func (c01) Exec(seed int64, i int, tier string) Record {
 	} else {
 		rec.Tags = append(rec.Tags, "outcome:err-"+out.ErrKind)
 	}
-	rec.Q = []LeanQ{{Driver: "spec", Line: "(q run " + p.Sexp() + " " + ValSexp(doc) + ")", Expect: exp, What: "result vs Spec.run"},
-		{Driver: "impl", Line: "(q errk f " + p.Sexp() + " " + ValSexp(doc) + ")", Expect: out.ImplExpect(false), What: "result vs Impl.run"},
-		{Driver: "impl", Line: "(q tree f " + p.Sexp() + ")", Expect: "(q " + tree[1:], What: "parsed tree vs Build.build"},
-		{Driver: "impl", Line: "(q den f " + p.Sexp() + " " + ValSexp(doc) + ")", Expect: exp, What: "result vs TSem.run (tree-level denotation)"}}
+	rec.Q = []LeanQ{{Driver: "spec", Line: "(q run " + psexp + " " + ValSexp(doc) + ")", Expect: exp, What: "result vs Spec.run"},
+		{Driver: "impl", Line: "(q errk f " + psexp + " " + ValSexp(doc) + ")", Expect: out.ImplExpect(false), What: "result vs Impl.run"},
+		{Driver: "impl", Line: "(q tree f " + psexp + ")", Expect: "(q " + tree[1:], What: "parsed tree vs Build.build"},
+		{Driver: "impl", Line: "(q den f " + psexp + " " + ValSexp(doc) + ")", Expect: exp, What: "result vs TSem.run (tree-level denotation)"}}
 	// non-trivial: selects ≥1 value through ≥2 steps or a filter / `..` / function
 	nontriv := false
 	if out.OK {
@@ -259,4 +288,127 @@ func genNestedRootCase(r *Rng) (interface{}, *Path) {
 		p.Steps = append(p.Steps, &Step{Kind: StChild, Key: "d"})
 	}
 	return doc, p
+}
+
+// ---------- class lit-left: the literal written on the LEFT of a `$`-path / `@`-path ----------
+//
+// `2 == $.limit`, `1 != @.c`, `0 < $.c.d` … on both decodings (60% json.Number). Half of the cases
+// come from b7GenRecCase (records under `$.a`, the literal usually equal to the operand's value),
+// half from the general generator with every `PATH op LIT` turned into `LIT op' PATH`.
+func c01LitLeftCase(r *Rng) Record {
+	var doc interface{}
+	var p *Path
+	if r.Chance(50) {
+		doc, p = b7GenRecCase(r, 85)
+	} else {
+		o := DefaultOpts()
+		o.RootBias = 40
+		for try := 0; try < 8; try++ {
+			doc, p = GenCase(r, o)
+			if nr, nc := b7LitLeft(r, p, 85); nr+nc > 0 {
+				break
+			}
+			if try == 7 {
+				doc, p = b7GenRecCase(r, 100)
+			}
+		}
+	}
+	nr, nc := b7LitLeft(r, p, 0)
+	text := Render(p, r)
+	jn := r.Chance(60)
+	if jn {
+		doc = ToJnum(doc)
+	}
+	cfg := Config(false, nil)
+	tags := []string{"class:lit-left"}
+	if nr > 0 {
+		tags = append(tags, "lit-left:of-$-path")
+	}
+	if nc > 0 {
+		tags = append(tags, "lit-left:of-@-path")
+	}
+	return c01Check(text, p, p.Sexp(), doc, jn, &cfg, tags, map[string]interface{}{}, nil)
+}
+
+// ---------- class reentrant: a user function evaluates the SAME parsed function again ----------
+//
+// `reent` (b7Reent) is registered next to the registry; while the parsed function evaluates the
+// document, every call of `reent` evaluates the same parsed function on another document of the
+// same shape (one or two levels deep) and returns its argument. What the path selects is what it
+// selects with `id` in place of `reent` (that is what the specification and the model are asked).
+func c01ReentCase(r *Rng) Record {
+	var doc interface{}
+	var p *Path
+	var nc, nr, nt int
+	if r.Chance(50) {
+		doc, p = b7GenRecCase(r, 30)
+		nc, nr, nt = b7InjectReent(r, p, 80)
+	} else {
+		o := DefaultOpts()
+		o.RootBias = 20
+		for try := 0; try < 6; try++ {
+			doc, p = GenCase(r, o)
+			nc, nr, nt = b7InjectReent(r, p, 75)
+			if nc+nr > 0 {
+				break
+			}
+		}
+	}
+	if nc+nr+nt == 0 {
+		p.Fns = append(p.Fns, Fn{Name: b7ReentName})
+		nt = 1
+	}
+	text := Render(p, r)
+	psexp := b7AsID(p.Sexp())
+	jn := r.Chance(40)
+	re := &b7Reent{Budget: 400}
+	levels := 1 + r.Weighted([]int{70, 30})
+	var altTexts []string
+	for l := 0; l < levels; l++ {
+		var alt interface{}
+		switch r.Weighted([]int{75, 10, 15}) {
+		case 0:
+			alt = b7AltDoc(r, doc, []int{30, 60, 100}[r.Intn(3)])
+		case 1:
+			alt = doc // the very same document object
+		default:
+			alt = GenDoc(r, DefaultOpts(), 0)
+		}
+		if jn {
+			alt = ToJnum(alt)
+		}
+		re.Docs = append(re.Docs, alt)
+		altTexts = append(altTexts, JSONText(alt))
+	}
+	if jn {
+		doc = ToJnum(doc)
+	}
+	cfg := Config(false, nil)
+	b7WithReent(&cfg, re)
+	tags := []string{"class:reentrant", fmt.Sprintf("reentrant:levels-%d", levels)}
+	if nc > 0 {
+		tags = append(tags, "reentrant:in-@-operand")
+	}
+	if nr > 0 {
+		tags = append(tags, "reentrant:in-$-operand")
+	}
+	if nt > 0 {
+		tags = append(tags, "reentrant:at-the-end")
+	}
+	info := map[string]interface{}{"reentrant": "the filter function `reent` evaluates the same parsed function on inner_documents[depth] and returns its argument (the specification is asked with `id`)",
+		"inner_documents": altTexts}
+	rec := c01Check(text, p, psexp, doc, jn, &cfg, tags, info, func(f Parsed) func() string {
+		re.F = f
+		return func() string {
+			re.F = nil
+			if re.Panic != "" {
+				return "an inner evaluation of the same parsed function panicked: " + clip(re.Panic, 600)
+			}
+			return ""
+		}
+	})
+	if re.Inner > 0 {
+		rec.Tags = append(rec.Tags, "reentrant:inner-evaluation-ran")
+	}
+	return rec
 }
